@@ -138,6 +138,26 @@ def _alpha_depth_rule(ctx, blp):
         ctx.bad(R, "parse_header|not-evaluable", "%s:%d" % (ph.file, let.get("ln") or 0), "alpha_bits expression not evaluable: %s" % e, "shape changed")
 
 
+
+def _depth_branch(dec_body, W):
+    """the code raw1_to_image runs for alpha depth W: the `then` of `if alpha_bits == W` (either operand order), or the arm `W =>` of a
+    `match alpha_bits { .. }`"""
+    for n in hirq.find(dec_body, "if"):
+        c = hirq.strip(n["c"])
+        if c.get("k") == "bin" and c["op"] == "==":
+            l_, r_ = hirq.strip(c["l"]), hirq.strip(c["r"])
+            for a_, b_ in ((l_, r_), (r_, l_)):
+                if a_.get("k") == "path" and re.search(r"alpha_bits$", hirq.render(a_)) and hirq.const_int(b_) == W:
+                    return n["then"]
+    for m in hirq.find(dec_body, "match"):
+        if re.search(r"alpha_bits$", hirq.render(hirq.strip(m["e"]))):
+            for a in m["arms"]:
+                p = a["pat"]
+                if p.get("k") == "lit" and (p.get("v") or {}).get("int") == W:
+                    return a["body"]
+    return None
+
+
 def _alpha_plane_rule(ctx, blp):
     """palettised (RAW1) alpha planes: the packer lays pixel k's W-bit alpha at bit W*(k mod 8/W) of byte k div (8/W) (shift counter
     advanced by W per pixel, new byte at 8, value OR-ed in shifted by the counter); the unpacker must read it from there.  The packer's
@@ -159,6 +179,11 @@ def _alpha_plane_rule(ctx, blp):
         # --- packer layout from structure
         if W == 8:
             pushes = [n for n in hirq.walk(enc.hir["body"]) if n.get("k") == "mcall" and n["m"] == "push" and n.get("args")]
+            # (`res.extend(pixels.map(|p| p[3]))` appends the same bytes as a push loop)
+            ext = [n for n in hirq.walk(enc.hir["body"]) if n.get("k") == "mcall" and n["m"] == "extend" and n.get("args")
+                   and any(c_.get("k") == "closure" and re.search(r"\[3\]\s*\}?$", hirq.render(c_["body"]).rstrip(" }")) for c_ in hirq.walk(n["args"][0]))]
+            if len(ext) == 1 and not pushes:
+                pushes = [{"args": [{"k": "path", "res": {"local": "pixel[3]"}}]}]
             if len(pushes) != 1 or not re.search(r"\[3\]$", hirq.render(pushes[0]["args"][0])):
                 ctx.bad(R, key + "|packer-shape", enc.where, "8-bit packer does not push pixel[3] once per pixel", "shape changed")
                 continue
@@ -171,7 +196,13 @@ def _alpha_plane_rule(ctx, blp):
             sh = next((x for x in hirq.walk(ors[0]["r"]) if x.get("k") == "bin" and x["op"] == "<<" and hirq.strip(x["r"]).get("k") == "path"), None)
             cnt = hirq.strip(sh["r"])["res"].get("local") if sh is not None else None
             adds = [n for n in hirq.walk(enc.hir["body"]) if n.get("k") == "assignop" and n.get("op") in ("+=", "Add", "+") and hirq.strip(n["l"]).get("k") == "path" and hirq.strip(n["l"])["res"].get("local") == cnt]
-            rst = next((n for n in hirq.find(enc.hir["body"], "if") if cnt and re.fullmatch(r"\(%s >= 8\)|\(8 <= %s\)|\(%s == 8\)" % (cnt, cnt, cnt), hirq.render(n["c"]))
+            def resets_at_8(c_, cnt=cnt):
+                """the counter test fires when the counter has reached 8 and not one step before (whatever the spelling)"""
+                try:
+                    return bool(cnt) and cnt in hirq.render(c_) and _bval(c_, {cnt: 8}, {}) and not _bval(c_, {cnt: 4}, {}) and not _bval(c_, {cnt: 7}, {})
+                except _NoEval:
+                    return False
+            rst = next((n for n in hirq.find(enc.hir["body"], "if") if cnt and resets_at_8(n["c"])
                         and any(a.get("k") == "assign" and hirq.render(a["l"]) == cnt and hirq.lit_int(hirq.strip(a["r"])) == 0 for a in hirq.walk(n["then"]))
                         and any(a.get("k") == "mcall" and a["m"] == "push" for a in hirq.walk(n["then"]))), None)
             if cnt is None or len(adds) != 1 or hirq.lit_int(hirq.strip(adds[0]["r"])) is None or rst is None:
@@ -182,8 +213,8 @@ def _alpha_plane_rule(ctx, blp):
                 ctx.bad(R, key + "|packer-step", "%s:%d" % (enc.file, adds[0].get("ln") or 0), "the %d-bit packer advances its shift counter by %d per pixel" % (W, step), "neighbouring pixels overlap or leave gaps in the plane: the unpacker reads other pixels' bits")
                 continue
         # --- unpacker branch for this depth
-        br = next((n for n in hirq.find(dec.hir["body"], "if") if re.fullmatch(r"\(alpha_bits == %d\)|\(%d == alpha_bits\)" % (W, W), hirq.render(n["c"]))), None)
-        lp = next((l for l in hirq.find(br["then"], "for") if "pixels_mut()" in hirq.render(l["iter"])), None) if br is not None else None
+        br = _depth_branch(dec.hir["body"], W)
+        lp = next((l for l in hirq.find(br, "for") if "pixels_mut()" in hirq.render(l["iter"])), None) if br is not None else None
         if lp is None:
             ctx.bad(R, key + "|unpacker-shape", dec.where, "branch `alpha_bits == %d` with its pixel loop not found" % W, "shape changed")
             continue
@@ -325,8 +356,8 @@ def _alpha_quantiser_rule(ctx, blp):
     pix = next((b for b in hirq.pat_binds(lp["pat"])), "pixel")
     elets = {l["pat"]["name"]: l["init"] for l in hirq.find(lp["body"], "let") if l["pat"].get("k") == "bind" and l.get("init") is not None}
     # the unpacker's expansion of a stored level v (plane byte holding v in its low nibble, pixel 0)
-    br = next((n for n in hirq.find(dec.hir["body"], "if") if re.fullmatch(r"\(alpha_bits == %d\)|\(%d == alpha_bits\)" % (W, W), hirq.render(n["c"]))), None)
-    dlp = next((l for l in hirq.find(br["then"], "for") if "pixels_mut()" in hirq.render(l["iter"])), None) if br is not None else None
+    br = _depth_branch(dec.hir["body"], W)
+    dlp = next((l for l in hirq.find(br, "for") if "pixels_mut()" in hirq.render(l["iter"])), None) if br is not None else None
     asg = next((a for a in hirq.walk(dlp["body"]) if a.get("k") == "assign" and re.search(r"\[3\]$", hirq.render(a["l"]))), None) if dlp is not None else None
     if asg is None:
         ctx.bad(R, "alpha4|unpacker-shape", dec.where, "branch `alpha_bits == 4` with its alpha assignment not found", "shape changed")
